@@ -12,6 +12,13 @@ NOTE_COMMON = ("Trusted base: go/packages + go/types type-check of /repo's worki
 
 # id -> (technique, level text, level note, design ref)
 CLAIMS = {
+    "C18": (
+        "per-site field-correspondence analysis of every hand-written copy between robust.Message/pb.RobustMessage and raft.Log/pb.RaftLog (like-named source field, completeness per literal/block, nested id components), enum-constant agreement from go/types constants, framing rule over every proto.Marshal/Unmarshal site, script extraction and item-by-item comparison of the output batch writer and reader including cursor increments and the symbolic size pre-computation",
+        "Structural completeness and agreement (same kind as C03): decides that no encoder/decoder copy in the module forgets or swaps a field, that enum numbers agree, that the id default is guarded by the zero test, "
+        "that every protobuf value written gets the marker byte every reader tests and strips, and that the output-store batch codec's write script equals its read script (order, width, byte order, loops, cursor advance, buffer size). "
+        "Value-level round-trip equality for all inputs (e.g. JSON legacy encoding of non-UTF-8 text) is not decided.",
+        NOTE_COMMON,
+        "DESIGN.md section 3, C18"),
     "C12": (
         "classification of every send call site (command class x prefix class x helper x recipient class, message literal resolved through locals and nested sends) against a frozen routing table, structural summaries of the six send helpers (range source, single exclusion, single insertion), who-writes of recipient sets and cached prefixes, must-follow updateIrcPrefix, clause/path rules for +n and +G",
         "Partial: decides that recipients are computed only by the six helpers and that each helper adds exactly its documented set; that every one of the ~200 send sites routes its message class to an entitled recipient class "
